@@ -161,9 +161,18 @@ def prove(ctx, propfile=None):
 # ---------------------------------------------------------------- harness builds
 CFLAGS = ['-O1', '-g', '-w', '-DURCU_VERIF', '-I' + os.path.join(REPO, 'include'), '-I' + os.path.join(REPO, 'src'), '-I' + HARN]
 
-def build_scenario(ctx, name, src, extra_src=(), defs=(), hooks=True, out=None, cflags=None, libs=('-lpthread',), cc='gcc'):
+def build_scenario(ctx, name, src, extra_src=(), defs=(), hooks=True, out=None, cflags=None, libs=('-lpthread',), cc='gcc', plain=False):
     """Compile a harness translation unit (which #includes the real sources from /repo's working tree)."""
     out = out or os.path.join(BUILD, name)
+    if plain:       # plain stores of the scenario translation unit become visible to the scheduler: compile it alone with the sanitizer's instrumentation, link without its runtime
+        obj = out + '.o'
+        rc, so, se = sh([cc] + (cflags or CFLAGS) + list(defs) + ['-fsanitize=thread', '-include', os.path.join(HARN, 'verif_hooks.h'), '-c', os.path.join(HARN, src), '-o', obj], timeout=300)
+        if rc == 0:
+            rc, so, se = sh([cc] + (cflags or CFLAGS) + list(defs) + ['-include', os.path.join(HARN, 'verif_hooks.h'), obj] + [s if os.path.isabs(s) else os.path.join(HARN, s) for s in extra_src] +
+                            [os.path.join(HARN, 'sched.c'), os.path.join(HARN, 'plain_hooks.c'), '-o', out] + list(libs), timeout=300)
+        if rc != 0:
+            ctx.fail('harness', 'build of %s against the working tree' % name, (so + se)[-2000:]); return None
+        return out
     cmd = [cc] + (cflags or CFLAGS) + list(defs)
     if hooks: cmd += ['-include', os.path.join(HARN, 'verif_hooks.h')]
     cmd += [os.path.join(HARN, src)] + [s if os.path.isabs(s) else os.path.join(HARN, s) for s in extra_src]
